@@ -469,7 +469,13 @@ pub fn vx_clone_envs(m: &HashMap<String, String>) -> HashMap<String, String> { u
 pub fn vx_print_bg_job(sh: &Shell, pgid: i32) { unimplemented!() }
 // jobc::wait_fg_job: contract in U-WAIT; no descriptor effect
 #[verifier::external_body]
-pub fn wait_fg_job(sh: &mut Shell, gid: i32, pids: &[i32]) -> (r: CommandResult) { unimplemented!() }
+pub fn wait_fg_job(sh: &mut Shell, gid: i32, pids: &[i32], Tracked(wl): Tracked<&mut WaitLog>) -> (r: CommandResult)
+    ensures final(wl).st == Some(r.status as int)
+{ unimplemented!() }
+// ghost: whether this activation waited for its foreground stages, and the status the wait reported
+pub ghost struct WaitLog { pub st: Option<int> }
+#[verifier::external_body]
+pub proof fn new_waitlog() -> (tracked r: WaitLog) ensures r.st.is_none() { unimplemented!() }
 
 //@FN run_pipeline
 ''' + common.TAIL
@@ -589,7 +595,7 @@ run_pipeline = Fn(C, 'run_pipeline', ret='r',
     ],
     add_params='Tracked(k): Tracked<&mut Kernel>',
     ghost_args={'pipe': 'Tracked(k)', 'close': 'Tracked(k)',
-                'run_single_program': 'Ghost(mk_wiring(base_id, pipes@.len() as int, k.next_id)), Tracked(k)'},
+                'run_single_program': 'Ghost(mk_wiring(base_id, pipes@.len() as int, k.next_id)), Tracked(k)', 'wait_fg_job': 'Tracked(&mut wl)'},
     let_types={'pipes': 'Vec<(RawFd, RawFd)>', 'fds_capture_stdout': 'Option<(RawFd, RawFd)>', 'fds_capture_stderr': 'Option<(RawFd, RawFd)>'},
     loop_kinds={'hdr:for fds in pipes': 'value', ('hdr:for fds in pipes', 'clone'): '{}'},
     requires=[('C08.pre.pipeline.shell_has_only_0_1_2', '!old(k).child && std3(old(k).fds) && old(k).cloexec =~= Set::<int>::empty()'),
@@ -651,14 +657,13 @@ run_pipeline = Fn(C, 'run_pipeline', ret='r',
         'hdr:for i in 0..length|body-entry': 'lemma_mk_wiring(base_id, pipes@.len() as int, k.next_id); '
             'lemma_layout_hs(k.fds, pipes@, __I as int, mk_wiring(base_id, pipes@.len() as int, k.next_id), mk_wiring(base_id, pipes@.len() as int, 0), fds_capture_stdout, fds_capture_stderr);',
         'before-call:run_single_program': 'RAW: let ghost nid = k.next_id;',
-        'before-text:let mut start_failed = false;': 'RAW: let ghost __forks0 = k.forks.len(); let ghost mut __wst: Option<int> = None;',
-        'after-call:wait_fg_job': '__wst = Some(_cr.status as int);',
+        'before-text:let mut start_failed = false;': 'RAW: let ghost __forks0 = k.forks.len(); let tracked mut wl = new_waitlog();',
         # C02 / C03: the status of a pipeline that was waited for is the one the wait reports, captured or not
         'before-text:if start_failed && cmd_result.status == 0': 'LABEL:C02+C03+C11.pipeline.status_is_the_one_the_wait_reported_also_when_captured: '
-            'assert(__wst.is_some() ==> cmd_result.status as int == __wst.unwrap());',
+            'assert(wl.st.is_some() ==> cmd_result.status as int == wl.st.unwrap());',
         # C02: the shell resumes only after all stages have terminated -- every pipeline with a started foreground stage is waited for, captured or not
         'before-text:// a pipeline with a stage that could not be started has failed': 'LABEL:C02+C11.pipeline.started_foreground_stages_are_waited_for_also_when_captured: '
-            'assert(fg_pids@.len() > 0 ==> __wst.is_some());',
+            'assert(fg_pids@.len() > 0 ==> wl.st.is_some());',
         # C08: descriptor exhaustion makes the pipeline fail with a non-zero status
         'before-text:(term_given, cmd_result)': 'LABEL:C08.pipeline.a_stage_that_could_not_be_started_gives_a_nonzero_status: '
             'assert(!spec_single_builtin(*cl) && k.forks.len() < __forks0 + length ==> cmd_result.status != 0);',
